@@ -13,8 +13,8 @@ ID = "C03"
 COQ_IMPORT = "Corr.CNodes"
 COQ_CASE_TYPE = "g_case"
 COQ_CHECK = "g_check"
-THEOREMS = ["c03_root", "c03_nothing_else", "c03_type_tag", "c03_param_dtype_shape", "c03_edges"]
-PROOF_FILES = ["Proofs/SerialProofs.v"]
+THEOREMS = ["c03_doc_table_matches_source", "c03_root", "c03_leaf_layout", "c03_file_layout", "c03_constructed_nodes_have_documented_fields", "c03_edges"]
+PROOF_FILES = ["Proofs/LayoutProofs.v", "Proofs/SerialProofs.v"]
 RULE = ("the C01 graph generator; each written file is traversed with raw h5py (names, group/dataset kind, string "
         "dtype info, dtype, shape, value, attribute count) and compared (a) with the Coq model of nir.write and (b) with "
         "an independent reference encoder written from docs/source/primitives.md + the shipped .nir artefacts "
